@@ -139,7 +139,9 @@ def _get_formula_parser():
 
     # Parse counts (subscripts and coefficients).
     count = Regex(r"(\d+\.\d+|\d*)")
-    count.setParseAction(lambda t: 1 if t[0] == "" else float(t[0]))
+    count.setParseAction(
+        lambda t: 1 if t[0] == "" else (int(t[0]) if t[0].isdigit() else float(t[0]))
+    )
 
     # Parse states.
     state = Suppress(Regex(r"\((s|l|g|aq|cr)\)"))
